@@ -143,3 +143,48 @@ Theorem auto_enter_veto_judged_one_by_one :
   map co_active (tr_calls tr) = [[2; 0]] /\ c07_codes C05C07Proofs.ex_sch2 [] [] tr = [].
 Proof. exact C05C07Proofs.auto_enter_veto_judged_one_by_one. Qed.
 Print Assumptions auto_enter_veto_judged_one_by_one.
+
+(* (5) (j) against judged_codes: an auto transition in whose slice no
+   negotiation handler returned false passes the clause 73.
+   [parity s]: the clock has one tick per schema state and a state is active
+   iff its tick is odd (an invariant of the runs, see judged_nv_ok). *)
+Theorem judged_codes_step : forall s mu s' r rec,
+  C05C07Proofs.good s -> NoDup (active s) -> C05C07Proofs.parity s ->
+  (mu_auto mu = true -> mu_type mu = MAdd /\ mu_check mu = false /\
+                        forall x, In x (mu_called mu) -> x < length (sc s)) ->
+  run_tx s mu = (s', r) -> txs s' = rec :: txs s ->
+  C05C07Proofs.no_veto_in (slice (rev (hlog s')) (tx_hfrom rec) (tx_hto rec)) ->
+  judged_codes (sc s) (topo s) (rev (hlog s')) rec = [].
+Proof. exact C05C07Proofs.judged_codes_step. Qed.
+Print Assumptions judged_codes_step.
+
+Theorem parity_step : forall s mu s' r,
+  C05C07Proofs.good s -> NoDup (active s) -> C05C07Proofs.parity s ->
+  run_tx s mu = (s', r) -> C05C07Proofs.parity s'.
+Proof. exact C05C07Proofs.run_tx_parity. Qed.
+Print Assumptions parity_step.
+
+(* on whole runs (any fuel) *)
+Theorem judged_nv_ok : forall sch tp hl ex bs ql acts cs fuel,
+  C05C07Proofs.fault_free acts ->
+  forall t, In t (tr_txs (run fuel (init_st sch tp hl ex bs ql acts) cs)) ->
+    (forall h, In h (slice (tr_hlog (run fuel (init_st sch tp hl ex bs ql acts) cs))
+                           (tx_hfrom t) (tx_hto t)) ->
+               is_final_key (hl_key h) = false -> hl_ret h = true) ->
+    judged_codes sch tp (tr_hlog (run fuel (init_st sch tp hl ex bs ql acts) cs)) t = [].
+Proof. exact C05C07Proofs.judged_nv_ok_lemma. Qed.
+Print Assumptions judged_nv_ok.
+
+Theorem judged_nv_ok_nonvacuous :
+  let bs := [[HEnter 1; HState 2; HAnyState]] in
+  let tr := run 100 (init_st C05C07Proofs.ex_sch2 [] [] 3 bs 1000 []) [C05C07Proofs.ex_add [0]] in
+  match nth_error (tr_txs tr) 1 with
+  | Some t =>
+    tx_auto t = true /\ tx_called t = [1; 2] /\ tx_accepted t = true /\
+    map (fun h => (hl_key h, hl_ret h)) (slice (tr_hlog tr) (tx_hfrom t) (tx_hto t))
+      = [(HEnter 1, true); (HState 2, true); (HAnyState, true)] /\
+    judged_codes C05C07Proofs.ex_sch2 [] (tr_hlog tr) t = []
+  | None => False
+  end.
+Proof. exact C05C07Proofs.judged_nv_ok_nonvacuous. Qed.
+Print Assumptions judged_nv_ok_nonvacuous.
